@@ -144,6 +144,8 @@ class Scheduler(object):
 
     def park(self, t):
         """give control back to the controller and wait to be scheduled again"""
+        if self.aborted:
+            raise Abort()
         self.ctrl.release()
         t.lock.acquire()
         if self.aborted:
@@ -172,7 +174,8 @@ class Scheduler(object):
                 t.outcome = "raised:" + type(e).__name__
             t.state = "done"
             t.pending = "done"
-            self.ctrl.release()
+            if not self.aborted:
+                self.ctrl.release()
 
         t.state = "ready"
         t.os_thread = _real_threading.Thread(target=boot, name="c19-" + tid)
